@@ -18,6 +18,167 @@ INF = float('inf')
 W0 = 0.55          # wavelength at which the (ideal) media are read out
 
 
+
+# --------------------------------------------------------------------------
+# numeric argument TYPES a user may pass through the public API
+# --------------------------------------------------------------------------
+SCALAR_F = ['float', 'np.float64', 'arr0d_f']                 # any real value
+SCALAR_I = ['int', 'np.int64', 'arr0d_i', 'float_integral']   # only for integral values
+LIST_F = ['list_f', 'tuple_f', 'arr_f', 'list_npf']
+LIST_I = ['list_i', 'tuple_i', 'arr_i']                       # only when every entry is integral
+LIST_M = ['list_mixed']                                       # first entry float, the others ints
+LIST2_F = ['list2_f', 'tuple2_f', 'arr2_f']
+LIST2_I = ['list2_i', 'arr2_i']
+
+
+def cast(v, cls):
+    """the same real number in the requested Python / NumPy type"""
+    import numpy as np
+    if cls in (None, 'float', 'float_integral'):
+        return float(v)
+    if cls == 'np.float64':
+        return np.float64(v)
+    if cls == 'arr0d_f':
+        return np.array(float(v))
+    if math.isinf(v) or v != v:
+        return float(v)
+    if cls == 'int':
+        return int(v)
+    if cls == 'np.int64':
+        return np.int64(int(v))
+    if cls == 'arr0d_i':
+        return np.array(int(v))
+    raise ValueError(cls)
+
+
+def cast_list(c, cls):
+    import numpy as np
+    if cls in (None, 'list_f'):
+        return [float(v) for v in c]
+    if cls == 'tuple_f':
+        return tuple(float(v) for v in c)
+    if cls == 'arr_f':
+        return np.array([float(v) for v in c], dtype=float)
+    if cls == 'list_npf':
+        return [np.float64(v) for v in c]
+    if cls == 'list_i':
+        return [int(v) for v in c]
+    if cls == 'tuple_i':
+        return tuple(int(v) for v in c)
+    if cls == 'arr_i':
+        return np.array([int(v) for v in c], dtype=int)
+    if cls == 'list_mixed':
+        return [float(c[0])] + [int(v) for v in c[1:]] if c else []
+    if cls == 'list2_f':
+        return [[float(v) for v in r] for r in c]
+    if cls == 'tuple2_f':
+        return tuple(tuple(float(v) for v in r) for r in c)
+    if cls == 'arr2_f':
+        return np.array(c, dtype=float)
+    if cls == 'list2_i':
+        return [[int(v) for v in r] for r in c]
+    if cls == 'arr2_i':
+        return np.array(c, dtype=int)
+    raise ValueError(cls)
+
+
+def assign_types(rng, hist, p_int=0.3):
+    """draw an argument type for every numeric argument of every call; integer types need an integral value, so
+    with probability p_int the value itself is first rounded (radii, thicknesses, conics, heights) or replaced
+    by the usual placeholder 0 (coefficients).  Returns {str(op index): {argument: class}}."""
+    types = {}
+
+    def scalar(op, pos, name, ty, lo=None, allow_round=True):
+        v = op[pos]
+        if isinstance(v, bool) or v is None:
+            return
+        if allow_round and not math.isinf(v) and rng.random() < p_int:
+            r = float(round(v))
+            if lo is not None and abs(r) < lo:
+                r = math.copysign(lo, v if v != 0 else 1.0)
+            op[pos] = r
+        v = op[pos]
+        integral = (not math.isinf(v)) and float(v).is_integer()
+        ty[name] = rng.choice(SCALAR_I + SCALAR_F) if integral else rng.choice(SCALAR_F)
+
+    for i, op in enumerate(hist['ops']):
+        ty = {}
+        t = op[0]
+        if t == 'add':
+            st = op[2]
+            if not math.isinf(op[3]):
+                scalar(op, 3, 'R', ty, lo=5.0)
+            else:
+                ty['R'] = 'float'
+            scalar(op, 4, 'k', ty)
+            if i > 0 or not math.isinf(op[6]):
+                scalar(op, 6, 't', ty, lo=1.0)
+            if isinstance(op[7], list):
+                n = op[7][1]
+                if rng.random() < 0.1:
+                    op[7][1] = n = 2.0
+                ty['n'] = rng.choice(SCALAR_I + SCALAR_F) if float(n).is_integer() else rng.choice(SCALAR_F)
+            if st == 'even_asphere':
+                r = rng.random()
+                if r < 0.3:
+                    op[5] = [0.0] * len(op[5])           # placeholder coefficients, to be filled in afterwards
+                    ty['c'] = rng.choice(LIST_I + ['list_i', 'list_i', 'list_f'])
+                elif r < 0.4:
+                    op[5] = [op[5][0]] + [0.0] * (len(op[5]) - 1)
+                    ty['c'] = 'list_mixed'
+                else:
+                    ty['c'] = rng.choice(LIST_F + ['list_f', 'list_f'])
+            elif st in ('polynomial', 'chebyshev'):
+                if rng.random() < 0.25:
+                    op[5] = [[0.0] * len(r_) for r_ in op[5]]
+                    ty['c'] = rng.choice(LIST2_I)
+                else:
+                    ty['c'] = rng.choice(LIST2_F)
+        elif t in ('set_radius', 'set_conic', 'set_thickness', 'set_index'):
+            if t == 'set_index' and rng.random() < 0.1:
+                op[1] = 2.0
+            scalar(op, 1, 'v', ty, lo={'set_radius': 5.0, 'set_thickness': 1.0}.get(t),
+                   allow_round=(t != 'set_index'))
+        elif t == 'set_coeff':
+            if rng.random() < 0.08:
+                op[1] = 0.0
+            scalar(op, 1, 'v', ty, allow_round=False)
+        elif t == 'var':
+            scaled = op[3]
+            if op[1] in ('radius', 'thickness', 'conic') and not scaled:
+                scalar(op, 4, 'v', ty, lo={'radius': 5.0, 'thickness': 1.0}.get(op[1]))
+            else:
+                scalar(op, 4, 'v', ty, allow_round=False)
+        elif t == 'pickup':
+            scalar(op, 4, 'sc', ty, allow_round=False)
+            scalar(op, 5, 'off', ty, allow_round=False)
+        elif t == 'solve':
+            scalar(op, 2, 'h', ty)
+        if ty:
+            types[str(i)] = ty
+    hist['types'] = types
+    return hist
+
+
+def type_histogram(hists):
+    """argument-type classes exercised, per argument family (for the evidence file)"""
+    out = {}
+    for h in hists:
+        for i, ty in (h.get('types') or {}).items():
+            op = h['ops'][int(i)] if int(i) < len(h['ops']) else None
+            if op is None:
+                continue
+            for name, cls in ty.items():
+                fam = {'R': 'radius', 'k': 'conic', 't': 'thickness', 'n': 'index', 'c': 'coefficients', 'h': 'solve_height',
+                       'sc': 'pickup_scale', 'off': 'pickup_offset'}.get(name)
+                if fam is None:
+                    fam = {'set_radius': 'radius', 'set_conic': 'conic', 'set_thickness': 'thickness', 'set_index': 'index',
+                           'set_coeff': 'coefficient_value', 'var': 'variable_' + str(op[1])}.get(op[0], op[0])
+                key = fam + ('@build' if op[0] == 'add' else '@edit')
+                d = out.setdefault(key, {})
+                d[cls] = d.get(cls, 0) + 1
+    return out
+
 # --------------------------------------------------------------------------
 # generator
 # --------------------------------------------------------------------------
@@ -43,7 +204,8 @@ def gen_history(rng, nsurf=None, nedits=None, exotic=True, build_only=False, foc
     sign = 1
     kinds = []
     for i in range(1, m + 1):
-        ty = rng.choices(['plane', 'standard', 'conic', 'even'], weights=[18, 40, 22, 20])[0]
+        ty = rng.choices(['plane', 'standard', 'conic', 'even', 'poly', 'cheb'],
+                         weights=[18, 38, 20, 24 if focus != 'asphere' else 60, 5, 5])[0]
         R = rng.uniform(25.0, 180.0) * rng.choice([-1, 1])
         k, c, st = 0.0, [], 'standard'
         if ty == 'plane':
@@ -56,6 +218,12 @@ def gen_history(rng, nsurf=None, nedits=None, exotic=True, build_only=False, foc
             st = 'even_asphere'
             k = rng.choice([0.0, rng.uniform(-1.5, 0.5)])
             c = [rng.uniform(-1, 1) * 10 ** (-5 - 2 * j) for j in range(rng.choice([1, 2, 3]))]
+        elif ty in ('poly', 'cheb'):
+            st = 'polynomial' if ty == 'poly' else 'chebyshev'
+            k = rng.choice([0.0, rng.uniform(-1.0, 0.3)])
+            nr, nc = rng.choice([(2, 2), (3, 2)])
+            c = [[rng.uniform(-1, 1) * 10 ** (-3 - (a_ + b_)) if a_ + b_ > 0 else 0.0 for b_ in range(nc)]
+                 for a_ in range(nr)]
         if use_mirror and not in_glass and rng.random() < 0.3:
             mat = 'mirror'
             sign = -sign
@@ -90,7 +258,7 @@ def gen_history(rng, nsurf=None, nedits=None, exotic=True, build_only=False, foc
         ap = ['imageFNO', rng.uniform(3.0, 10.0)]
     hist = {'ap': ap, 'ops': ops, 'nbuild': len(ops)}
     if build_only:
-        return hist
+        return assign_types(rng, hist)
     n = m + 2
     ne = nedits if nedits is not None else rng.choice([0, 3, 8, 15, 30])
     has_stop = bool(stops)
@@ -107,13 +275,15 @@ def gen_history(rng, nsurf=None, nedits=None, exotic=True, build_only=False, foc
         weights.update(set_thickness=40, var=20)
     elif focus == 'index':
         weights.update(set_index=40)
+    elif focus == 'asphere':
+        weights.update(set_coeff=30, var=16, set_radius=22, pickup=14, update=8, remove=0, insert=0, invalid=0)
     pk_edges = {}             # target quantity -> source quantity
     structural = False        # after a middle insertion / removal only the stop / wavelength clauses are claimed
     for _ in range(ne):
         kind = rng.choices(list(weights), weights=list(weights.values()))[0]
         ks = rng.randrange(0, n)
         if kind == 'set_radius':
-            v = rng.uniform(20.0, 200.0) * rng.choice([-1, 1]) if rng.random() < 0.93 else INF
+            v = rng.uniform(20.0, 200.0) * rng.choice([-1, 1]) if rng.random() < (0.93 if focus != 'asphere' else 0.75) else INF
             ops.append(['set_radius', v, ks])
         elif kind == 'set_conic':
             ops.append(['set_conic', rng.uniform(-2.5, 1.0), ks])
@@ -128,7 +298,8 @@ def gen_history(rng, nsurf=None, nedits=None, exotic=True, build_only=False, foc
                 j = rng.randrange(-ncoef[k], ncoef[k]) if rng.random() < 0.3 else rng.randrange(ncoef[k])
                 ops.append(['set_coeff', rng.uniform(-1, 1) * 1e-5, k, j])
         elif kind == 'var':
-            vk = rng.choice(['radius', 'conic', 'thickness', 'index', 'asphere_coeff', 'tilt', 'decenter'])
+            vk = rng.choice(['radius', 'conic', 'thickness', 'index', 'asphere_coeff', 'tilt', 'decenter']
+                            + (['asphere_coeff'] * 6 if focus == 'asphere' else []))
             scaled = rng.random() < 0.5
             if vk == 'radius':
                 v = rng.uniform(-2.0, 2.0) if scaled else rng.uniform(20., 200.) * rng.choice([-1, 1])
@@ -210,7 +381,7 @@ def gen_history(rng, nsurf=None, nedits=None, exotic=True, build_only=False, foc
                                    ['add', n + 1, 'standard', 50.0, 0.0, [], 1.0, 'air', False, 0., 0., 0., 0.],
                                    ['pickup', n, 'radius', 1, 1.0, 0.0], ['set_coeff', 1e-6, 0, 0]]))
             break            # the call raises (possibly after a partial mutation): the history ends here
-    return hist
+    return assign_types(rng, hist)
 
 
 def _reaches(edges, start, goal):
@@ -250,36 +421,42 @@ def new_optic(hist):
     return o
 
 
-def apply_op(o, op):
-    """apply one op through the public API"""
+def apply_op(o, op, ty=None):
+    """apply one op through the public API; ty: argument name -> type class (see cast / cast_list)"""
     import numpy as np
     from optiland.materials import IdealMaterial
     from optiland.optimization.variable.variable import Variable
+    ty = ty or {}
+    C = lambda name, v: cast(v, ty.get(name))
     t = op[0]
     if t == 'add':
         _, idx, st, R, k, c, th, mat, stop, dx, dy, rx, ry = op
-        kw = {'radius': R}
-        if k != 0.0 or st != 'standard':
-            kw['conic'] = k
+        kw = {'radius': C('R', R)}
+        if k != 0.0 or st != 'standard' or ty.get('k') not in (None, 'float'):
+            kw['conic'] = C('k', k)
         if st == 'even_asphere':
-            kw['coefficients'] = list(c)
+            kw['coefficients'] = cast_list(c, ty.get('c'))
+        elif st in ('polynomial', 'chebyshev'):
+            kw['coefficients'] = cast_list(c, ty.get('c') or 'list2_f')
+            if st == 'chebyshev':
+                kw['norm_x'], kw['norm_y'] = 40.0, 50.0
         for nm, v in (('dx', dx), ('dy', dy), ('rx', rx), ('ry', ry)):
             if v != 0.0:
                 kw[nm] = v
-        m = mat if isinstance(mat, str) else IdealMaterial(n=mat[1], k=0.0)
-        o.add_surface(index=idx, surface_type=st, thickness=th, material=m, is_stop=bool(stop), **kw)
+        m = mat if isinstance(mat, str) else IdealMaterial(n=C('n', mat[1]), k=0.0)
+        o.add_surface(index=idx, surface_type=st, thickness=C('t', th), material=m, is_stop=bool(stop), **kw)
     elif t == 'remove':
         o.surface_group.remove_surface(op[1])
     elif t == 'set_radius':
-        o.set_radius(op[1], op[2])
+        o.set_radius(C('v', op[1]), op[2])
     elif t == 'set_conic':
-        o.set_conic(op[1], op[2])
+        o.set_conic(C('v', op[1]), op[2])
     elif t == 'set_thickness':
-        o.set_thickness(op[1], op[2])
+        o.set_thickness(C('v', op[1]), op[2])
     elif t == 'set_index':
-        o.set_index(op[1], op[2])
+        o.set_index(C('v', op[1]), op[2])
     elif t == 'set_coeff':
-        o.set_asphere_coeff(op[1], op[2], op[3])
+        o.set_asphere_coeff(C('v', op[1]), op[2], op[3])
     elif t == 'var':
         _, vk, k, scaled, v, extra = op
         kw = {'surface_number': k}
@@ -289,11 +466,11 @@ def apply_op(o, op):
             kw['coeff_number'] = extra
         elif vk in ('tilt', 'decenter'):
             kw['axis'] = extra
-        Variable(o, vk, apply_scaling=bool(scaled), **kw).update(v)
+        Variable(o, vk, apply_scaling=bool(scaled), **kw).update(C('v', v))
     elif t == 'pickup':
-        o.pickups.add(op[1], op[2], op[3], scale=op[4], offset=op[5])
+        o.pickups.add(op[1], op[2], op[3], scale=C('sc', op[4]), offset=C('off', op[5]))
     elif t == 'solve':
-        o.solves.add('marginal_ray_height', op[1], op[2])
+        o.solves.add('marginal_ray_height', op[1], C('h', op[2]))
     elif t == 'update':
         o.update()
     elif t == 'image_solve':
@@ -304,7 +481,8 @@ def apply_op(o, op):
         raise ValueError('unknown op ' + str(t))
 
 
-KIND_TAG = {'Plane': 0, 'StandardGeometry': 1, 'EvenAsphere': 2}
+KIND_TAG = {'Plane': 0, 'StandardGeometry': 1, 'EvenAsphere': 2, 'PolynomialGeometry': 3,
+            'ChebyshevPolynomialGeometry': 3}
 
 
 def f1(v):
@@ -312,19 +490,28 @@ def f1(v):
     return float(np.ravel(v)[0])
 
 
+def coefs_of(g):
+    """coefficients of an aspheric / polynomial / Chebyshev geometry, row-major (else [])"""
+    import numpy as np
+    if type(g).__name__ in ('EvenAsphere', 'PolynomialGeometry', 'ChebyshevPolynomialGeometry'):
+        return [float(v) for v in np.ravel(np.asarray(g.c, dtype=float))]
+    return []
+
+
 def observe(o):
-    """(nums, ints) in the order of obs_num / obs_int of Model/M_C01_Run.v"""
-    nums, ints = [], []
+    """(nums, coefs, ints) in the order of obs_num / obs_coef / obs_int of Model/M_C01_Run.v"""
+    nums, coefs, ints = [], [], []
     ss = o.surface_group.surfaces
     ids = []
     for s in ss:
         g = s.geometry
         cs = g.cs
         has_k = hasattr(g, 'k')
-        c = [float(v) for v in g.c] if type(g).__name__ == 'EvenAsphere' else []
-        nums += [f1(cs.x), f1(cs.y), f1(cs.z), f1(cs.rx), f1(cs.ry), f1(g.radius), f1(g.k) if has_k else 0.0] + c
+        c = coefs_of(g)
+        nums += [f1(cs.x), f1(cs.y), f1(cs.z), f1(cs.rx), f1(cs.ry), f1(g.radius), f1(g.k) if has_k else 0.0]
         nums += [f1(s.material_pre.n(W0)), f1(s.material_post.n(W0))]
-        ints += [KIND_TAG.get(type(g).__name__, 3), int(has_k), int(bool(s.is_stop)), int(bool(s.is_reflective)), len(c)]
+        coefs += c
+        ints += [KIND_TAG.get(type(g).__name__, 4), int(has_k), int(bool(s.is_stop)), int(bool(s.is_reflective)), len(c)]
         ids += [id(s.material_pre), id(s.material_post)]
     seen = {}
     for i in ids:
@@ -334,7 +521,7 @@ def observe(o):
         ints.append(int(bool(w.is_primary)))
     nums.append(float(o.surface_group.surface_factory.last_thickness))
     ints += [len(o.pickups), len(o.solves), len(ss)]
-    return nums, ints
+    return nums, coefs, ints
 
 
 def run_impl(hist, observe_each=True):
@@ -344,9 +531,9 @@ def run_impl(hist, observe_each=True):
     o = new_optic(hist)
     out = []
     with np.errstate(all='ignore'):
-        for op in hist['ops']:
+        for i, op in enumerate(hist['ops']):
             try:
-                apply_op(o, op)
+                apply_op(o, op, (hist.get('types') or {}).get(str(i)))
             except Exception as e:     # noqa
                 out.append(('err', type(e).__name__))
                 break
@@ -376,9 +563,13 @@ def quantities(o):
         q[('ry', k)] = f1(g.cs.ry)
         q[('geom', k)] = type(g).__name__
         q[('stop', k)] = bool(s.is_stop)
-        if type(g).__name__ == 'EvenAsphere':
-            for j, v in enumerate(g.c):
-                q[('c', k, j)] = float(v)
+        for j, v in enumerate(coefs_of(g)):
+            q[('c', k, j)] = v
+        q[('coef_container', k)] = (type(g.c).__name__ + ':' + (str(np.asarray(g.c).dtype) if len(np.ravel(np.asarray(g.c))) else 'empty')) \
+            if hasattr(g, 'c') else 'none'
+        for nm in ('norm_x', 'norm_y'):
+            if hasattr(g, nm):
+                q[(nm, k)] = float(getattr(g, nm))
         if k + 1 < len(ss):
             q[('t', k)] = f1(o.surface_group.get_thickness(k))
     if len(ss) > 1:
@@ -396,6 +587,45 @@ def feq(a, b, tol=1e-9):
     if math.isinf(a) or math.isinf(b):
         return a == b
     return abs(a - b) <= tol * (1 + abs(a) + abs(b))
+
+
+def ceq(a, b):
+    """coefficients are compared as exact real values (they are far below any absolute tolerance)"""
+    if a is None or b is None:
+        return False
+    if a != a and b != b:
+        return True
+    return a == b or abs(a - b) <= 1e-12 * max(abs(a), abs(b))
+
+
+def same_q(kk, a, b):
+    if kk[0] == 'c':
+        return ceq(a, b)
+    if kk[0] == 'coef_container':
+        return True            # the container may be normalised; its VALUES are compared entry by entry
+    if kk[0] == 'R':
+        return req(a, b, 1e-9)
+    return feq(a, b, 1e-9)
+
+
+GEOM_OK = {('Plane', 'StandardGeometry'), ('StandardGeometry', 'Plane')}    # how a radius is given to / taken from a flat surface
+
+
+def frame_violation(before, after, key):
+    """first quantity other than `key` that differs between two snapshots (missing / new keys included)"""
+    for kk in list(after) + [x for x in before if x not in after]:
+        if kk == key or kk == ('z1',):
+            continue
+        if kk not in before or kk not in after:
+            return kk
+        if kk[0] == 'geom':
+            if after[kk] != before[kk] and not (key is not None and key[0] == 'R' and kk[1] == key[1]
+                                                and (before[kk], after[kk]) in GEOM_OK):
+                return kk
+            continue
+        if not same_q(kk, after[kk], before[kk]):
+            return kk
+    return None
 
 
 def req(a, b, tol=1e-9):
@@ -491,6 +721,7 @@ def check_history(hist, stop_at_first=True):
             geom_before = [type(s.geometry).__name__ for s in o.surface_group.surfaces]
             hask_before = [hasattr(s.geometry, 'k') for s in o.surface_group.surfaces]
             valid = op_valid(op, o)
+            ty_i = (hist.get('types') or {}).get(str(i))
             pre_ua = None
             pre_ya = None
             if (t in ('image_solve', 'solve') or (t == 'update' and len(o.solves))) and valid:
@@ -501,11 +732,13 @@ def check_history(hist, stop_at_first=True):
                 except Exception:     # noqa
                     pre_ua = None
             try:
-                apply_op(o, op)
+                apply_op(o, op, ty_i)
             except Exception as e:     # noqa
                 if valid:
                     viol.append({'clause': 'raises', 'op_index': i, 'op': op, 'error': type(e).__name__,
-                                 'msg': str(e)[:120], 'geom_before': geom_before, 'hask_before': hask_before})
+                                 'msg': str(e)[:120], 'geom_before': geom_before, 'hask_before': hask_before,
+                                 'coef_container': (before or {}).get(('coef_container', op[2])) if op[0] in ('set_coeff', 'var') else None,
+                                 'arg_types': ty_i})
                 break
             def V(clause, **kw):
                 d = {'clause': clause, 'op_index': i, 'op': op, 'object_infinite': bool(obj_inf)}
@@ -549,19 +782,16 @@ def check_history(hist, stop_at_first=True):
                 if key[0] == 'c' and key[2] < 0:       # Python's negative index into the coefficient list
                     key = ('c', key[1], key[2] + sum(1 for kk in before if kk[0] == 'c' and kk[1] == key[1]))
                 after = quantities(o)
-                if not (req if key[0] == 'R' else feq)(after.get(key, float('nan')), val, 1e-9):
-                    V('edit-readback', key=list(key), got=after.get(key), expected=val)
+                info = dict(geom_before=geom_before[key[1]] if len(key) > 1 and key[1] < len(geom_before) else None,
+                            hask_before=hask_before[key[1]] if len(key) > 1 and key[1] < len(hask_before) else None,
+                            coef_container=before.get(('coef_container', key[1])) if len(key) > 1 else None,
+                            arg_types=ty_i)
+                if not same_q(key, after.get(key, float('nan')), val):
+                    V('edit-readback', key=list(key), got=after.get(key), expected=val, **info)
                 else:
-                    for kk in after:
-                        if kk == key or kk == ('z1',):
-                            continue
-                        if kk[0] == 'geom' and key[0] == 'R' and kk[1] == key[1]:
-                            continue       # Plane -> StandardGeometry is how a radius is given to a flat surface
-                        if kk not in before or not feq(after[kk], before[kk], 1e-9):
-                            V('edit-frame', key=list(key), changed=list(kk), was=before.get(kk), now=after[kk],
-                              geom_before=geom_before[key[1]] if len(key) > 1 and key[1] < len(geom_before) else None,
-                              hask_before=hask_before[key[1]] if len(key) > 1 and key[1] < len(hask_before) else None)
-                            break
+                    kk = frame_violation(before, after, key)
+                    if kk is not None:
+                        V('edit-frame', key=list(key), changed=list(kk), was=before.get(kk), now=after.get(kk), **info)
                 if key[0] == 't' and not feq(after.get(('z1',), 0.0), 0.0) and not viol:
                     V('edit-first-surface-moved', z1=after.get(('z1',)))
                 mc = media_chain(o)
@@ -575,6 +805,13 @@ def check_history(hist, stop_at_first=True):
                 if not (req if a == 'radius' else feq)(pickup_value(o, a, tgt), sc * pickup_value(o, a, src) + off, 1e-9):
                     V('pickup-unsatisfied', pickup=op[1:], stage='add', got=pickup_value(o, a, tgt),
                       expected=sc * pickup_value(o, a, src) + off, dependency=(a != 'thickness' and False))
+                else:
+                    key = ({'radius': 'R', 'conic': 'k', 'thickness': 't'}[a], tgt)
+                    kk = frame_violation(before, quantities(o), key)
+                    if kk is not None:
+                        V('edit-frame', key=list(key), changed=list(kk), was=before.get(kk), now=quantities(o).get(kk),
+                          geom_before=geom_before[tgt] if tgt < len(geom_before) else None,
+                          hask_before=hask_before[tgt] if tgt < len(hask_before) else None, via='pickup')
             elif t == 'solve' and not structural:
                 bad = solve_violation(o, [[op[1], op[2]]], [], 'add')
                 if bad and bad.get('precondition_failed'):
@@ -740,7 +977,9 @@ def coq_op(op):
     t = op[0]
     if t == 'add':
         _, idx, st, R, k, c, th, mat, stop, dx, dy, rx, ry = op
-        kind = 'GEven' if st == 'even_asphere' else 'GStd'
+        kind = 'GEven' if st == 'even_asphere' else 'GOther' if st in ('polynomial', 'chebyshev') else 'GStd'
+        if kind == 'GOther':
+            c = [v for r in c for v in r]
         m = 'MAir' if mat == 'air' else 'MMirror' if mat == 'mirror' else f'(MIdeal {fh(mat[1])})'
         return (f'AddSurface (O:=FOps) {z(idx)} {kind} {fh(R)} {fh(k)} {fl(c)} {fh(th)} {m} {b(stop)} '
                 f'{fh(dx)} {fh(dy)} {fh(rx)} {fh(ry)}')
@@ -788,8 +1027,8 @@ def coq_history(name, hist, impl):
         if r[0] == 'err':
             exp.append('None')
         else:
-            exp.append(f'Some ({fl(r[1][0])}, {zl(r[1][1])})')
-    e = f'Definition {name}_exp : list (option (list float * list Z)) := [\n  ' + ';\n  '.join(exp) + '].\n'
+            exp.append(f'Some ({fl(r[1][0])}, {fl(r[1][1])}, {zl(r[1][2])})')
+    e = f'Definition {name}_exp : list (option (list float * list float * list Z)) := [\n  ' + ';\n  '.join(exp) + '].\n'
     return o + e
 
 
